@@ -306,9 +306,26 @@ def observe(run, shoot, sigbin, modname, pkgs):
             bodies[pkg["name"]] = oracle_file(pkg, body, '"time"' in text, "/helper" in text, modname)
     for d, t in bodies.items():
         l2.write_files(mod / d, {"zz_oracle_verif.go": t})
-    cases, err = ctorlib.build_and_run_oracles(run, mod, modname, sorted(bodies))
-    if cases is None:
-        raise lib.CheckBroken("the oracle program does not build: " + err[-4000:])
+    oracle_errors = {}
+    for attempt in range(4):
+        cases, err = ctorlib.build_and_run_oracles(run, mod, modname, sorted(bodies))
+        if cases is not None:
+            break
+        # the oracle of a package does not compile AGAINST THE GENERATED CODE (e.g. NewT cannot be instantiated with
+        # the struct's own type arguments in the struct's order): that is an observation about those packages, not a
+        # harness failure; they are judged "output unusable" (status 6) and the rest of the batch goes on
+        bad = [d for d in ctorlib.failing_packages(err, modname) if d in bodies]
+        if not bad or attempt == 3:
+            raise lib.CheckBroken("the oracle program does not build: " + err[-4000:])
+        for d in bad:
+            oracle_errors[d] = [l for l in err.splitlines() if l.startswith(d + "/")][:3]
+            (mod / d / "zz_oracle_verif.go").unlink()
+            del bodies[d]
+    for (pn, sn), o in obs.items():
+        if pn in oracle_errors and o["status"] == 0:
+            o["status"] = 6
+            o["errors"] = ["the oracle (explicit instantiation / calls in the struct's own terms) does not compile against "
+                           "the generated code"] + oracle_errors[pn]
     run.log("oracle ran: %d blocks" % len(cases))
     for pkg in pkgs:
         for sd in pkg["structs"]:
